@@ -73,6 +73,7 @@ type fact struct {
 }
 
 type prover struct {
+	linDepth int
 	w            *World
 	fn           *ssa.Function
 	site         ssa.Instruction
@@ -124,6 +125,14 @@ func (p *prover) lenKey(x ssa.Value) string {
 // linOf turns an integer SSA value into a linear form.
 func (p *prover) linOf(v ssa.Value) lin {
 	v = strip(v)
+	// a substituted loop variable may be defined in terms of itself (i -> i + 1): past a fixed depth the value is an atom
+	p.linDepth++
+	defer func() { p.linDepth-- }()
+	if p.linDepth > 48 {
+		o := newLin()
+		o.c[p.atomKey(v)] = 1
+		return o
+	}
 	if p.sub != nil {
 		if r, ok := p.sub[v]; ok {
 			return p.linOf(r)
